@@ -135,6 +135,12 @@ func (g *c08gen) capture(kind, depth int, inBlock string, inMacro bool) []gen.No
 	case kSet:
 		g.seq++
 		name := "cap" + strconv.Itoa(g.seq)
+		if len(g.forced) == 0 && !inMacro && r.Intn(6) == 0 {
+			// the capture of a single print is the text that print produced - a string - whatever the value was
+			src := []string{"zero", "yes", "nul", "half"}[r.Intn(4)]
+			return []gen.Node{&gen.NSetCap{Name: name, Body: []gen.Node{pr(nm(src))}}, tx(g.mark()), pr(&gen.EFilter{X: nm(name), Name: "wrap"}),
+				&gen.NIf{Conds: []gen.Expr{nm(name)}, Bodies: [][]gen.Node{{tx("truthy.")}}, HasElse: true, Else: []gen.Node{tx("falsy.")}}}
+		}
 		out := []gen.Node{&gen.NSetCap{Name: name, Body: g.body(depth-1, inBlock, inMacro)}}
 		uses := r.Intn(4)
 		if len(g.forced) > 0 {
@@ -185,7 +191,9 @@ func (g *c08gen) macroCall(extra []gen.Expr, depth int) gen.Node {
 	g.seq++
 	name := "mc" + strconv.Itoa(g.seq)
 	params := []string{"p"}
-	body := []gen.Node{tx(g.mark()), pr(nm("p"))}
+	// the parameter is called like a variable of the context, and is read again two scopes further in
+	body := []gen.Node{tx(g.mark()), pr(nm("p")), &gen.NFor{Val: "li", Seq: &gen.EArr{Els: []gen.Expr{num(1), num(2)}}, Body: []gen.Node{
+		&gen.NFor{Val: "lj", Seq: &gen.EArr{Els: []gen.Expr{num(1)}}, Body: []gen.Node{pr(nm("p")), &gen.NSetCap{Name: "inner", Body: []gen.Node{pr(nm("p"))}}, pr(nm("inner"))}}}}}
 	body = append(body, g.body(depth, "", true)...)
 	g.macros = append(g.macros, &gen.NMacro{Name: name, Params: params, Body: body})
 	args := extra
@@ -293,7 +301,7 @@ func (p *c08) build(i int) (*Program, *c08gen) {
 			tx("<"), pr(nm("ec")), tx(">"), &gen.NFilter{Filters: []string{"b3"}, Body: []gen.Node{tx("E4."), &gen.NBlock{Name: "eb2", Body: []gen.Node{tx("E5.")}}}}, tx("E6."))
 		g.paths = append(g.paths, "include/embed")
 	}
-	return &Program{Templates: ts, Main: "main", Ctx: map[string]interface{}{}}, g
+	return &Program{Templates: ts, Main: "main", Ctx: map[string]interface{}{"p": "GLOBAL-p.", "zero": 0, "yes": true, "nul": nil, "half": 0.5}}, g
 }
 
 func (p *c08) Describe(i int) interface{} {
@@ -338,7 +346,7 @@ func (p *c08) Run(i int) (res fw.Result) {
 }
 
 func (p *c08) Rule() string {
-	return "cases: enumerated - every nesting of depth <=2 (quick) / <=3 (thorough) of the five capture kinds (set..endset, filter section with 1..3 bracket filters, macro call, block(), parent()) x 3 continuations (captured value printed 1..3 times); re-entrant captures - terminating recursive macros (linear, two inner calls, mutual) inside set-captures and filter sections and a block that renders itself through block(), depth 0..4; random - nestings to depth 5 (with includes and embeds of templates that capture on their own account dropped into any body, embed overrides capturing too) with 1..2 captures per level (a quarter of the bodies consist of exactly one capturing construct with nothing around it, so sections are directly nested), captures inside loops (<=2 deep), captured values printed 0..3 times, assigned from block()/parent() and passed on as macro arguments, in extending and non-extending templates. Every text run and print carries a unique marker (T17. / P23.), so the oracle (reference model output plus the recorded filter-callback log) sees any byte that is misrouted, duplicated or lost. Non-trivial = nesting depth >= 2 or a capture inside a loop; distinct = multiset of capture paths."
+	return "cases: enumerated - every nesting of depth <=2 (quick) / <=3 (thorough) of the five capture kinds (set..endset, filter section with 1..3 bracket filters, macro call, block(), parent()) x 3 continuations (captured value printed 1..3 times); re-entrant captures - terminating recursive macros (linear, two inner calls, mutual) inside set-captures and filter sections and a block that renders itself through block(), depth 0..4; captures of a single print of a number / bool / null (the captured value is the text: passed to a recording filter and used as a condition); macro parameters named like a context variable and read again inside two nested loops and a capture; random - nestings to depth 5 (with includes and embeds of templates that capture on their own account dropped into any body, embed overrides capturing too) with 1..2 captures per level (a quarter of the bodies consist of exactly one capturing construct with nothing around it, so sections are directly nested), captures inside loops (<=2 deep), captured values printed 0..3 times, assigned from block()/parent() and passed on as macro arguments, in extending and non-extending templates. Every text run and print carries a unique marker (T17. / P23.), so the oracle (reference model output plus the recorded filter-callback log) sees any byte that is misrouted, duplicated or lost. Non-trivial = nesting depth >= 2 or a capture inside a loop; distinct = multiset of capture paths."
 }
 
 func (p *c08) Assumptions() []string {
